@@ -703,7 +703,7 @@ func genGE(cfg *config, r *rng, i int, s *sink) string {
 			q := func(lim int) float64 { return float64(r.intn(2*lim*4+1)-lim*4) / 4 }
 			for try := 0; try < 50; try++ {
 				p1, q1, p2, q2, p3, q3 := q(3), q(3), q(3), q(3), q(3), q(3)
-				p4, q4 := -((p1+p2)+p3), -((q1+q2)+q3)
+				p4, q4 := -((p1 + p2) + p3), -((q1 + q2) + q3)
 				// plane estimate of the crossing parameters (a few degrees around the equator)
 				dax, day, dbx, dby := q2-q1, p2-p1, q4-q3, p4-p3
 				den := dax*dby - day*dbx
